@@ -890,7 +890,9 @@ Proof.
   intros [p P] H. unfold h_back_hup in H. rewrite P in H.
   destruct (pipe_backend_hup p) as [p' r0] eqn:E. inversion H; subst; clear H.
   assert (B : fbuf p' = fbuf p /\ bbuf p' = bbuf p).
-  { unfold pipe_backend_hup in E. cbn [bbuf p_bst] in E.
+  { unfold pipe_backend_hup in E.
+    destruct ((0 <? avail_data (fbuf p)) && negb (re (be p))); [inversion E; subst; auto|].
+    cbn [bbuf p_bst] in E.
     destruct (avail_data (bbuf p) =? 0).
     - destruct (rr (be (p_bst p CClosed))); inversion E; subst; auto.
     - cbn [be p_fi p_bst] in E. destruct (rr (be p)); inversion E; subst; auto. }
@@ -1281,3 +1283,10 @@ Section Split.
 End Split.
 
 Definition expect_no_loss_lemma := expect_handoff.
+
+Lemma pipe_backend_hup_close p p' :
+  pipe_backend_hup p = (p', Close) -> avail_data (fbuf p) = 0 \/ re (be p) = true.
+Proof.
+  unfold pipe_backend_hup. destruct (0 <? avail_data (fbuf p)) eqn:A; [|apply Nat.ltb_ge in A; left; lia].
+  destruct (re (be p)); [right; reflexivity|]. cbn. discriminate.
+Qed.
